@@ -36,8 +36,14 @@ EXPLANATION = (
     'inside the branch guarded by is_buffered_transition(cur_state, <angle of '
     'frame i>, hard_boundaries, buffer_width), the re-binning uses that same '
     'frame\'s angle and the same boundaries, rotamers[i] receives the carried '
-    'state on every trip, frame 0 is binned by the hard boundaries (strict <) '
-    'and the carried state starts from it; (D2) transitions are the slice '
+    'state on every path through a trip (after the possible update), frame 0 is '
+    'binned by the hard boundaries (strict <; inline search loop, digitize, or a '
+    'module-level search helper whose parameters are bound to the call '
+    'arguments) and the carried state starts from it; the angle, boundaries and '
+    'buffer that reach the exit test are the values _rotamers was CALLED with '
+    '(symbolic forward substitution down to the entry values: a rebinding such '
+    'as `buffer_width = buffer_width or 15` is a different function of the '
+    'argument - it replaces an explicit zero buffer); (D2) transitions are the slice '
     'lemma with L = 1 along the frame axis, != 0, with one length entry per '
     'input row (np.bincount with minlength); (D3) gate construction: the gates '
     'are the boundaries of the current basin looked up at [state] / '
@@ -251,6 +257,151 @@ def _cmp_node(fi, c, scalars=None):
     return ast.Compare(left=side(c.lhs), ops=[c.op()], comparators=[side(c.rhs)])
 
 
+class Unresolved(Exception):
+    pass
+
+
+def entry_expand(fi, e, at, stop=(), depth=10, numbers=()):
+    """Symbolic forward substitution down to the values the function was
+    ENTERED with: a copy of `e` (evaluated at statement `at`) in which every
+    local name is replaced by its single reaching definition, whose own
+    operands are read AT THE DEFINITION SITE - so a rebinding of a parameter
+    (`w = w or 15`, `w = abs(w)`, `w += 1`) shows up as a function of the
+    entry value instead of hiding behind the unchanged name.  A Name left in
+    the result is a parameter at its entry value, a name in `stop`, a
+    global, or a local object that is mutated in place (identity only).
+    A definition of a parameter in `numbers` (the caller passes a number,
+    never None) that sits under `if <parameter> is None:` is dead and ignored.
+    Raises Unresolved when a name has several reaching definitions, a
+    non-pure definition, or an operand mutated between definition and use.
+    (fi.expand stops at a name whose operands were rebound: that is the
+    right thing for recognising temporaries, the wrong thing for asking
+    'is this still the caller's value?'.)"""
+    from ..normal import is_pure
+    pnames = set(params(fi.fn))
+
+    def name(n, at, d):
+        if n.id in stop or not isinstance(n.ctx, ast.Load):
+            return ast.Name(id=n.id, ctx=ast.Load())
+        defs = fi.rd.defs_at(at, n.id)
+        if len(defs) > 1 and n.id in numbers:
+            defs = {x for x in defs if isinstance(x, str) or not _under_is_none(fi, x, n.id)}
+        if not defs or defs == {'UNBOUND'} or defs == {'PARAM'}:
+            return ast.Name(id=n.id, ctx=ast.Load())
+        if len(defs) != 1 or d <= 0:
+            raise Unresolved('%s has %d reaching definitions' % (n.id, len(defs)))
+        site = next(iter(defs))
+        if isinstance(site, ast.AugAssign) and isinstance(site.target, ast.Name) and site.target.id == n.id and is_pure(site.value):
+            # rd.defs_at(site, x) are the definitions that reach the ENTRY of `site`
+            return ast.BinOp(left=name(ast.Name(id=n.id, ctx=ast.Load()), site, d - 1), op=site.op, right=ex(site.value, site, d - 1))
+        v = fi.def_value(site, n.id) if isinstance(site, (ast.Assign, ast.AnnAssign)) else None
+        if v is None or isinstance(v, ast.GeneratorExp) or not is_pure(v):
+            raise Unresolved('definition of %s at line %s is not a pure expression' % (n.id, getattr(site, 'lineno', '?')))
+        if fi._mutated_in_place(n.id):
+            if n.id in pnames:
+                raise Unresolved('%s is rebound and mutated in place' % n.id)
+            return ast.Name(id=n.id, ctx=ast.Load())
+        for m in walk_expr(v):
+            if isinstance(m, ast.Name) and isinstance(m.ctx, ast.Load):
+                for ms in fi._mutated_in_place(m.id):
+                    if ms is not at and ms is not site and fi.cfg.reachable(site, ms) and fi.cfg.reachable(ms, at, avoiding=[site]):
+                        raise Unresolved('%s is mutated between the definition of %s and its use' % (m.id, n.id))
+        return ex(v, site, d - 1)
+
+    def ex(e, at, d):
+        if isinstance(e, ast.Name):
+            return name(e, at, d)
+        if not isinstance(e, ast.AST) or isinstance(e, (ast.expr_context, ast.operator, ast.unaryop, ast.boolop, ast.cmpop)):
+            return e
+        bound = set()
+        if isinstance(e, (ast.ListComp, ast.SetComp, ast.GeneratorExp, ast.DictComp)):
+            bound = {t.id for g in e.generators for t in ast.walk(g.target) if isinstance(t, ast.Name)}
+        if bound:
+            # a comprehension is kept as it is, provided it reads no rebound local
+            for x in ast.walk(e):
+                if isinstance(x, ast.Name) and isinstance(x.ctx, ast.Load) and x.id not in bound:
+                    ds = fi.rd.defs_at(at, x.id)
+                    if ds and ds != {'UNBOUND'} and ds != {'PARAM'}:
+                        raise Unresolved('comprehension over the local %s' % x.id)
+            return copy.deepcopy(e)
+        new = type(e)()
+        for f in e._fields:
+            val = getattr(e, f, None)
+            if isinstance(val, list):
+                setattr(new, f, [ex(x, at, d) for x in val])
+            elif isinstance(val, ast.AST):
+                setattr(new, f, ex(val, at, d))
+            else:
+                setattr(new, f, val)
+        return ast.copy_location(new, e) if hasattr(e, 'lineno') else new
+    return ex(e, at, depth)
+
+
+def _under_is_none(fi, stmt, p):
+    """`stmt` executes only if the parameter `p`, still at its entry value,
+    `is None`."""
+    for n in governing(fi, stmt):
+        for c in conjuncts(n.test, n.polarity) or []:
+            if isinstance(c, Cmp) and c.op is ast.Is and isinstance(c.lhs, ast.Name) and c.lhs.id == p \
+                    and isinstance(c.rhs, ast.Constant) and c.rhs.value is None and fi.defs_of_use(c.lhs) == {'PARAM'}:
+                return True
+    return False
+
+
+_ARRAY_CONV = ('np.asarray', 'np.asanyarray', 'np.ascontiguousarray', 'np.array', 'numpy.asarray', 'numpy.array')
+
+
+def value_preserving(tree, numbers=()):
+    """Canonical copy of `tree` without conversions that keep the VALUES of
+    their operand (np.asarray(x) / np.array(x) / x.copy() / x.astype(float)
+    with at most a float dtype), and with the None-default idiom resolved for
+    the names in `numbers` (known to hold numbers, never None):
+    `x is None` -> False, `A if False else B` -> B.  `x or d` is NOT resolved:
+    it replaces a falsy 0."""
+    def floaty(k):
+        return k.arg == 'dtype' and u(k.value) in ('float', 'np.float64', "'float'", "'float64'", 'np.double', 'np.float_')
+
+    class V(ast.NodeTransformer):
+        def visit_Call(self, n):
+            self.generic_visit(n)
+            cn = call_name(n) or ''
+            if cn in _ARRAY_CONV and len(n.args) == 1 and all(floaty(k) or (k.arg == 'copy') for k in n.keywords):
+                return n.args[0]
+            if isinstance(n.func, ast.Attribute) and n.func.attr == 'copy' and not n.args and not n.keywords:
+                return n.func.value
+            if isinstance(n.func, ast.Attribute) and n.func.attr == 'astype' and len(n.args) == 1 and not n.keywords \
+                    and u(n.args[0]) in ('float', 'np.float64', "'float'", "'float64'"):
+                return n.func.value
+            return n
+
+        def visit_Compare(self, n):
+            self.generic_visit(n)
+            if len(n.ops) == 1 and isinstance(n.ops[0], (ast.Is, ast.IsNot)):
+                l, r = n.left, n.comparators[0]
+                if isinstance(l, ast.Constant) and l.value is None:
+                    l, r = r, l
+                if isinstance(l, ast.Name) and l.id in numbers and isinstance(r, ast.Constant) and r.value is None:
+                    return ast.Constant(value=isinstance(n.ops[0], ast.IsNot))
+            return n
+
+        def visit_IfExp(self, n):
+            self.generic_visit(n)
+            if isinstance(n.test, ast.Constant) and isinstance(n.test.value, bool):
+                return n.body if n.test.value else n.orelse
+            return n
+    t = V().visit(canon(tree))
+    ast.fix_missing_locations(t)
+    return t
+
+
+def _subst(tree, mapping):
+    """Copy of `tree` with every loaded Name in `mapping` replaced."""
+    class S(ast.NodeTransformer):
+        def visit_Name(self, n):
+            return copy.deepcopy(mapping[n.id]) if isinstance(n.ctx, ast.Load) and n.id in mapping else n
+    return S().visit(copy.deepcopy(tree))
+
+
 def _enclosing_loop(mod, node, fn):
     n = mod.parent.get(node)
     while n is not None and n is not fn:
@@ -318,14 +469,32 @@ def d1_carried_state(ck, mod):
         ck.missing(rule + '.only-on-exit', 'no loop-carried state variable recognised in the frame loop (carried names: %s)' % (carried,))
         return
     frame_angle = ['%s[%s]' % (angles, i)]
+    call_at = fi.stmt(call)
+
+    def entry(e):
+        """`e` at the gate call as a function of the values _rotamers was
+        called with (the frame index and the carried state left alone)."""
+        try:
+            return entry_expand(fi, e, call_at, stop=(i, S), numbers=(bw,))
+        except Unresolved:
+            return None
+
+    def entry_classify(e, forms, scope):
+        x = entry(e)
+        return ('far', 0, None) if x is None else classify(value_preserving(x, numbers=(bw,)), forms, scope=scope)
+    ident = lambda p: [p, 'float(%s)' % p]
     v = _worst([classify(fi.expand(a_state, stop=(S,)), [S, 'int(%s)' % S], scope={S}),
-                classify(fi.expand(a_angle), frame_angle, scope={angles, i}),
-                classify(fi.expand(a_hb), [hb], scope={hb, bw, angles}),
-                classify(fi.expand(a_bw), [bw], scope={hb, bw, angles})])
-    ck.decide(v, rule + '.gate-call', mod, call, F, '%s  [angle = %s]' % (u(call), fi.xu(a_angle)),
+                entry_classify(a_angle, frame_angle + ['float(%s)' % frame_angle[0]], {angles, i}),
+                entry_classify(a_hb, [hb], {hb, bw, angles}),
+                entry_classify(a_bw, ident(bw), {hb, bw, angles})])
+    x_bw = entry(a_bw)
+    shown_bw = '' if x_bw is None or u(value_preserving(x_bw, numbers=(bw,))) == bw else ', buffer = %s' % u(canon(x_bw))
+    ck.decide(v, rule + '.gate-call', mod, call, F, '%s  [angle = %s%s]' % (u(call), fi.xu(a_angle), shown_bw),
               'exit test sees the carried state, THIS frame\'s angle, the boundaries and the buffer',
               'the exit test must be is_buffered_transition(%s, %s[%s], %s, %s): using the '
-              'previous angle or another state makes the machine react one frame late / to the wrong basin' % (S, angles, i, hb, bw))
+              'previous angle or another state makes the machine react one frame late / to the wrong basin, and a buffer '
+              'that is not the caller\'s value (a falsy 0 replaced by a default, a clipped or rescaled width) breaks '
+              '"zero buffer = plain binning"' % (S, angles, i, hb, bw))
 
     # --- state writes only under "the exit test fired"
     writes = assigns_to(loop, S)
@@ -371,22 +540,29 @@ def d1_carried_state(ck, mod):
                   'new state = basin containing the new angle (digitize against the same boundaries)',
                   'on exit the state must become np.digitize(%s[%s], %s) - 1' % (angles, i, hb))
 
-    # --- every frame records the carried state, after the possible update
-    if len(st) != 1:
-        ck.missing(rule + '.record', 'exactly one store into %s inside the frame loop (found %d)' % (R, len(st)))
+    # --- every frame records the carried state, after the possible update.
+    # One store on every trip, or one store per path through the trip
+    # (guard clause `if not exit: R[i] = S; continue` + `S = ...; R[i] = S`).
+    if not st:
+        ck.missing(rule + '.record', 'no store into %s inside the frame loop' % R)
     else:
-        rs, rt = st[0]
-        v = _worst([classify(fi.expand(rt.slice), [i], scope={i}),
-                    classify(fi.expand(rs.value, stop=(S,)) if isinstance(rs, ast.Assign) else ast.Name(id='<augmented>', ctx=ast.Load()),
-                             [S, 'int(%s)' % S], scope={S, angles, i, hb, bw})])
-        ck.decide(v, rule + '.record', mod, rs, F, u(rs), 'frame %s records the carried state' % i,
-                  '%s[%s] = %s must be what each trip records' % (R, i, S))
+        stores = [rs for rs, _ in st]
+        for rs, rt in st:
+            v = _worst([classify(fi.expand(rt.slice), [i], scope={i}),
+                        classify(fi.expand(rs.value, stop=(S,)) if isinstance(rs, ast.Assign) else ast.Name(id='<augmented>', ctx=ast.Load()),
+                                 [S, 'int(%s)' % S], scope={S, angles, i, hb, bw})])
+            ck.decide(v, rule + '.record', mod, rs, F, u(rs), 'frame %s records the carried state' % i,
+                      '%s[%s] = %s must be what each trip records' % (R, i, S))
+        rs = stores[0]
         first = loop.body[0]
-        every = first is rs or not (cfg.reachable(first, loop, avoiding=[rs]) or cfg.reachable(first, 'EXIT', avoiding=[rs, loop]))
-        ck.check(every, rule + '.record', mod, rs, F, '%s on every trip' % u(rs),
-                 'every frame records the carried state (unconditionally)',
+        every = first in stores or not (cfg.reachable(first, loop, avoiding=stores) or cfg.reachable(first, 'EXIT', avoiding=stores + [loop]))
+        shown = u(rs) if len(stores) == 1 else ' | '.join(u(x) for x in stores)
+        ck.check(every, rule + '.record', mod, rs, F, '%s on every trip' % shown,
+                 'every frame records the carried state (every path through a trip passes a store)',
                  '%s[%s] = %s must execute on every trip of the frame loop' % (R, i, S))
-        late = [w for w in writes if cfg.reachable(rs, w, avoiding=[loop])]
+        # a state update that can follow a record within the same trip and is not recorded again before the trip ends
+        late = [w for w in writes for x in stores
+                if cfg.reachable(x, w, avoiding=[loop]) and (cfg.reachable(w, loop, avoiding=stores) or cfg.reachable(w, 'EXIT', avoiding=stores + [loop]))]
         ck.check(not late, rule + '.record', mod, rs, F, 'update before record',
                  'state is updated before it is recorded', 'the state must be updated before it is recorded for the frame')
     ck.ok(rule + '.record', mod, rets[0], u(rets[0]), 'returns the recorded states')
@@ -398,29 +574,88 @@ def d1_carried_state(ck, mod):
     a0 = '%s[0]' % angles
     if not st0:
         ck.missing(rule + '.first-frame', 'no store `%s[0] = <basin>` before the frame loop' % R)
+    iter_forms = ['range(len(%s) - 1)' % hb, 'range(0, len(%s) - 1)' % hb, 'range(len(%s[1:]))' % hb, 'range(len(%s[:-1]))' % hb,
+                  'np.arange(len(%s) - 1)' % hb, 'range(%s.shape[0] - 1)' % hb, 'range(len(%s) - 1 - 0)' % hb]
+
+    def search_verdicts(sfi, fl, site, value, sub):
+        """The basin search `for b in range(n_basins): if angles[0] < hb[b + 1]: <site: result b>`
+        (in _rotamers itself: sub = identity; in a helper: sub maps the
+        helper's parameters to the caller's argument expressions)."""
+        bn = fl.target.id
+        vs = [classify(sub(sfi.expand(fl.iter)), iter_forms, scope={hb}),
+              classify(sub(sfi.expand(value)), [bn, 'int(%s)' % bn], scope={bn, hb, angles})]
+        atoms = guard_atoms(sfi, site, inside=fl)
+        if atoms is None or len(atoms) != 1 or not isinstance(atoms[0], Cmp):
+            vs.append(('near', 0, None) if atoms == [] else ('far', 0, None))
+        else:
+            vs.append(classify(sub(_cmp_node(sfi, atoms[0])), ['%s < %s[%s + 1]' % (a0, hb, bn), '%s < %s[1 + %s]' % (a0, hb, bn)], scope={angles, hb, bn}))
+        return _worst(vs)
+
+    def helper_search(s, val):
+        """`R[0] = helper(<args>)` where the module-level helper is the basin
+        search with `return b` in place of the store (a return inside a loop:
+        not undone by the front-end inliner).  Returns (verdict, shown)."""
+        h = mod.functions.get(call_name(val) or '')
+        far = ('far', 0, None)
+        if h is None or h is fn or h.decorator_list or h.args.vararg or h.args.kwarg or h.args.kwonlyargs \
+                or any(isinstance(n, (ast.Yield, ast.YieldFrom)) for n in walk_local(h)):
+            return far, None
+        hp = params(h)
+        bnd = bind_args(val, hp)
+        if bnd is None or set(bnd) != set(hp):
+            return far, None
+        hfi = finfo(mod, h)
+        ck.analysed(mod, h)
+        if any(assigns_to(h, p_) or hfi._mutated_in_place(p_) for p_ in hp):
+            return far, None
+        allowed = (ast.For, ast.If, ast.Return, ast.Pass, ast.Break)
+        for n in walk_local(h):
+            if isinstance(n, ast.stmt) and not isinstance(n, allowed) and n is not h and \
+                    not (isinstance(n, ast.Expr) and isinstance(n.value, ast.Constant)):
+                return far, None
+        hr = returns_of(h)
+        loops_h = [n for n in h.body if isinstance(n, ast.For) and isinstance(n.target, ast.Name) and not n.orelse]
+        if len(hr) != 2 or len(loops_h) != 1:
+            return far, None
+        hl = loops_h[0]
+        inside = [r for r in hr if _within(mod, r, hl)]
+        after = [r for r in hr if not _within(mod, r, hl)]
+        if len(inside) != 1 or len(after) != 1 or inside[0].value is None or _enclosing_loop(mod, inside[0], h) is not hl \
+                or after[0] not in h.body or hfi.cfg.reachable('ENTRY', 'EXIT', avoiding=hr):
+            return far, None
+        # the caller's arguments, in the caller's terms; the helper's own locals must not collide with them
+        args = {p_: fi.expand(bnd[p_]) for p_ in hp}
+        locals_h = {n.id for n in walk_local(h) if isinstance(n, ast.Name) and isinstance(n.ctx, ast.Store)}
+        if locals_h & {x for a in args.values() for x in names_loaded(a)} or locals_h & {angles, hb, bw}:
+            return far, None
+        v = search_verdicts(hfi, hl, inside[0], inside[0].value, lambda t: _subst(t, args))
+        if v[0] == 'match':
+            fb = after[0].value
+            # no basin found: impossible for an angle below hb[-1] == 360 (validated); any constant or the
+            # pre-filled "unassigned" marker will do, a computed value is not understood
+            if fb is not None and const_value(fb) is None:
+                v = far
+        return v, '%s  [%s: %s ... %s]' % (u(s), h.name, u(hl)[:120].replace('\n', ' '), u(after[0]))
+
     for s, t in st0:
         fl = _enclosing_loop(mod, s, fn)
         if fl is None:
             forms = ['np.digitize(%s, %s) - 1' % (a0, hb), 'np.digitize(%s, %s, False) - 1' % (a0, hb), "np.searchsorted(%s, %s, 'right') - 1" % (hb, a0)]
-            v = classify(_pos(fi.expand(s.value)), forms, scope={angles, hb})
+            val = fi.expand(s.value)
+            shown = None
+            if isinstance(val, ast.Call) and call_name(val) in mod.functions and call_name(val) not in (GATE, GATES):
+                v, shown = helper_search(s, val)
+            else:
+                v = classify(_pos(val), forms, scope={angles, hb})
             if v[0] == 'match' and not cfg.dominates(s, loop):
                 v = ('far', 0, None)
-            ck.decide(v, rule + '.first-frame', mod, s, F, u(s), 'frame 0 gets the basin containing its angle',
+            ck.decide(v, rule + '.first-frame', mod, s, F, shown or u(s), 'frame 0 gets the basin containing its angle',
                       'frame 0 must be binned by the hard boundaries')
             continue
         if not (isinstance(fl, ast.For) and isinstance(fl.target, ast.Name)):
             ck.missing(rule + '.first-frame', 'basin search for frame 0 at %s not recognised' % mod.loc(fl))
             continue
-        bn = fl.target.id
-        vs = [classify(fi.expand(fl.iter), ['range(len(%s) - 1)' % hb, 'range(0, len(%s) - 1)' % hb, 'range(len(%s[1:]))' % hb,
-                                           'range(len(%s[:-1]))' % hb, 'np.arange(len(%s) - 1)' % hb], scope={hb}),
-              classify(fi.expand(s.value), [bn, 'int(%s)' % bn], scope={bn, hb, angles})]
-        atoms = guard_atoms(fi, s, inside=fl)
-        if atoms is None or len(atoms) != 1 or not isinstance(atoms[0], Cmp):
-            vs.append(('near', 0, None) if atoms == [] else ('far', 0, None))
-        else:
-            vs.append(classify(_cmp_node(fi, atoms[0]), ['%s < %s[%s + 1]' % (a0, hb, bn), '%s < %s[1 + %s]' % (a0, hb, bn)], scope={angles, hb, bn}))
-        v = _worst(vs)
+        v = search_verdicts(fi, fl, s, s.value, lambda t: t)
         if v[0] == 'match' and cfg.reachable(s, fl):
             v = ('near', 0, None)       # no break: the LAST matching basin wins
         ck.decide(v, rule + '.first-frame', mod, fl, F, u(fl)[:160],
@@ -436,6 +671,29 @@ def d1_carried_state(ck, mod):
             v = ('near', 0, None)
         ck.decide(v, rule + '.first-frame', mod, init, F, u(init), 'the carried state starts as the basin of frame 0',
                   '%s must be initialised to %s[0] after frame 0 was binned' % (S, R))
+
+    # --- the machine works on the caller's angles / boundaries / buffer: a rebinding of a
+    # parameter must keep its value (conversions), whatever name-based comparison follows
+    for p_ in (angles, hb, bw):
+        for d in assigns_to(fn, p_):
+            if _under_is_none(fi, d, p_) and p_ == bw:
+                continue
+            try:
+                if isinstance(d, ast.AugAssign):
+                    x = ast.BinOp(left=ast.Name(id=p_, ctx=ast.Load()), op=d.op, right=entry_expand(fi, d.value, d, numbers=(bw,)))
+                    if fi.rd.defs_at(d, p_) != {'PARAM'}:
+                        raise Unresolved(p_)
+                else:
+                    val = fi.def_value(d, p_)
+                    if val is None:
+                        raise Unresolved(p_)
+                    x = entry_expand(fi, val, d, numbers=(bw,))
+                v = classify(value_preserving(x, numbers=(bw,)), [p_, 'float(%s)' % p_] if p_ == bw else [p_], scope={p_})
+            except Unresolved:
+                v = ('far', 0, None)
+            ck.decide(v, rule + '.inputs-as-given', mod, d, F, u(d), 'the parameter keeps the caller\'s value',
+                      'the state machine must run on the caller\'s %s: this rebinding changes its value for admissible inputs%s' % (
+                          p_, ' (e.g. `%s or <default>` replaces an explicit 0: a zero buffer is no longer plain binning)' % p_ if p_ == bw else ''))
 
     # --- validation of inputs: which atomic conditions raise
     need = [('%s[0] != 0' % hb,), ('%s[-1] != 360' % hb, '%s[len(%s) - 1] != 360' % (hb, hb)), ('%s < 0' % bw,)]
